@@ -2,17 +2,6 @@ import MakoModel.Names.Scopes
 /-! What one `_Identifiers` traversal (`visit`) does to each of its collections. -/
 namespace MakoModel.Names
 
-/-- names bound by the leaves of the list, *through its blocks* (as `visitBlockTag` traverses them) -/
-def declsThrough : Body → List Name
-  | .nil => []
-  | .leaf _ d _ r => d ++ declsThrough r
-  | .text _ _ r => declsThrough r
-  | .code _ d _ r => d ++ declsThrough r
-  | .page _ a _ r => a ++ declsThrough r
-  | .defn _ _ _ _ _ r => declsThrough r
-  | .block _ _ _ _ _ b r => declsThrough b ++ declsThrough r
-  | .call _ _ _ _ _ r => declsThrough r
-
 /-- `<%page>` and `<%block>` arguments of the list, through its blocks -/
 def argsThrough : Body → List Name
   | .nil => []
